@@ -18,6 +18,9 @@ pub enum Op {
     Fork(u8),
     /// drop replica r
     Drop(u8),
+    /// call `next()` on the stranger: an unrelated lexer of the same definition over other text
+    /// (`RunSpec::stranger`). Replicas must be unaffected by it (C15: no hidden shared state).
+    Stranger,
 }
 
 /// What was injected, for the record (the effective text already contains the text faults).
@@ -65,6 +68,10 @@ pub struct RunSpec {
     pub fork_sched: Option<u64>,
     pub base_text: Vec<char>,
     pub faults: Vec<Fault>,
+    /// text of an unrelated lexer value of the same definition that the caller steps in between
+    /// (`Op::Stranger`; with a fork scheduler at seeded instants). Its items are not observed.
+    #[serde(default)]
+    pub stranger: Option<Vec<char>>,
 }
 
 impl RunSpec {
@@ -182,11 +189,23 @@ pub fn execute(make: MakeFn, prog: &Program, spec: &RunSpec) -> Observed {
         unfused_fired: false,
         overrun: false,
     };
+    // the stranger has its own source, step counter and user state: nothing is shared by the harness
+    let stranger_str: String = match (&spec.stranger, spec.ctor) {
+        (Some(t), c) if c != Ctor::FromSim => t.iter().collect(),
+        _ => String::new(),
+    };
+    let mut stranger = spec.stranger.as_ref().map(|t| {
+        let sctr = Rc::new(Counter::default());
+        sctr.budget.set(8 * (t.len() as u64 + 2) * (t.len() as u64 + 2) + 1024);
+        let ssrc = SimSource::new(Rc::from(t.clone()), None, sctr);
+        let scfg = Rc::new(spec.run_cfg(prog, has_text));
+        (make(spec.ctor, &stranger_str, ssrc, Env::new(scfg)), 0usize, t.len() + 3)
+    });
     let item_cap = spec.text.len() as u64 + 2;
     let mut sched_rng = spec.fork_sched.map(Rng::new);
     let mut scripted = spec.ops.clone().map(|v| v.into_iter());
     // hard cap on caller operations, far above anything a terminating lexer needs
-    let op_cap = (spec.text.len() + 8) * (MAX_REPLICAS + 1) + 64;
+    let op_cap = ((spec.text.len() + 8) * (MAX_REPLICAS + 1) + 64) * if spec.stranger.is_some() { 2 } else { 1 };
 
     for _ in 0..op_cap {
         let op = match &mut scripted {
@@ -194,12 +213,24 @@ pub fn execute(make: MakeFn, prog: &Program, spec: &RunSpec) -> Observed {
                 Some(op) => op,
                 None => break,
             },
-            None => match next_op(&reps, &mut sched_rng) {
+            None => match next_op(&reps, &mut sched_rng, stranger.is_some()) {
                 Some(op) => op,
                 None => break,
             },
         };
         match op {
+            Op::Stranger => {
+                if let Some((st, calls, cap)) = stranger.as_mut() {
+                    if *calls < *cap {
+                        *calls += 1;
+                        if catch_unwind(AssertUnwindSafe(|| st.step())).is_err() {
+                            *cap = 0;
+                        }
+                        st.env().log.clear();
+                        obs.ops.push(op);
+                    }
+                }
+            }
             Op::Fork(r) => {
                 let r = r as usize;
                 if r >= reps.len() || reps[r].rep.is_none() || reps[r].dead {
@@ -280,7 +311,7 @@ pub fn execute(make: MakeFn, prog: &Program, spec: &RunSpec) -> Observed {
 
 /// Default caller: one replica polled to the end; with a fork scheduler, up to four replicas
 /// forked at seeded instants and driven in a seeded interleaving.
-fn next_op(reps: &[Live], rng: &mut Option<Rng>) -> Option<Op> {
+fn next_op(reps: &[Live], rng: &mut Option<Rng>, has_stranger: bool) -> Option<Op> {
     let runnable: Vec<usize> = reps
         .iter()
         .enumerate()
@@ -294,6 +325,9 @@ fn next_op(reps: &[Live], rng: &mut Option<Rng>) -> Option<Op> {
         None => Some(Op::Next(runnable[0] as u8)),
         Some(r) => {
             let live = reps.iter().filter(|l| l.rep.is_some()).count();
+            if has_stranger && r.chance(1, 3) {
+                return Some(Op::Stranger);
+            }
             let pick = *r.pick(&runnable);
             if reps.len() < MAX_REPLICAS + 2 && live < MAX_REPLICAS && r.chance(1, 4) {
                 return Some(Op::Fork(pick as u8));
